@@ -81,10 +81,14 @@
    'rewrite': [[r'self->data = ([^;]*);', r'unbounded_array_ctor_sz(&self->data, \1);', 1]]},
   {'op': 'func', 'file': 'igris/container/cyclic_buffer.h', 'name': 'push', 'in_class': 'cyclic_buffer', 'self': 'cyclic_buffer', 'as': 'cyclic_buffer_push',
    'members': ['data', 'counter', '_size'], 'tparams': {'T': 'char'},
-   'rewrite': [[r'self->data\[ring_counter_get\(&self->counter\)\]', '(*unbounded_array_at(&self->data, ring_counter_get(&self->counter)))', 2]]},
+   'rewrite': [[r'self->data\[((?:[^\[\]]|\[[^\[\]]*\])*)\]', r'(*unbounded_array_at(&self->data, \1))', 0]]},
   {'op': 'func', 'file': 'igris/container/cyclic_buffer.h', 'name': 'operator[]', 'in_class': 'cyclic_buffer', 'occurrence': 0, 'self': 'cyclic_buffer',
    'as': 'cyclic_buffer_at', 'members': ['data', 'counter', '_size'], 'tparams': {'T': 'char'},
-   'rewrite': [[r'self->data\[ring_counter_prev\(&self->counter, i\)\]', '(*unbounded_array_at(&self->data, ring_counter_prev(&self->counter, i)))', 1]]},
+   'rewrite': [[r'self->data\[((?:[^\[\]]|\[[^\[\]]*\])*)\]', r'(*unbounded_array_at(&self->data, \1))', 0]]},
+  # const T operator[](int i) const
+  {'op': 'func', 'file': 'igris/container/cyclic_buffer.h', 'name': 'operator[]', 'in_class': 'cyclic_buffer', 'occurrence': 1, 'self': 'cyclic_buffer',
+   'as': 'cyclic_buffer_at_c', 'members': ['data', 'counter', '_size'], 'tparams': {'T': 'char'}, 'ret': 'char',
+   'rewrite': [[r'self->data\[((?:[^\[\]]|\[[^\[\]]*\])*)\]', r'(*unbounded_array_at(&self->data, \1))', 0]]},
   {'op': 'func', 'file': 'igris/container/cyclic_buffer.h', 'name': 'resize', 'in_class': 'cyclic_buffer', 'self': 'cyclic_buffer', 'as': 'cyclic_buffer_resize',
    'members': ['data', 'counter', '_size'],
    'rewrite': [[r'self->data\.resize\(([^;]*)\);', r'unbounded_array_resize(&self->data, \1);', 1]]},
